@@ -15,6 +15,7 @@ pub struct Slice {
 }
 
 #[derive(Debug, PartialEq, Eq)]
+#[cfg_attr(feature = "verif", derive(Clone))]
 pub enum Packet {
     // Small messages in a reliable channel are aggregated and sent in this packet
     SmallReliable {
